@@ -1,4 +1,4 @@
-"""C15 -- scopes and name tables agree with Python's symbol table (VGC rules R15.1-R15.6)."""
+"""C15 -- scopes and name tables agree with Python's symbol table (VGC rules R15.1-R15.8)."""
 from __future__ import annotations
 
 import ast
@@ -69,6 +69,11 @@ def check_walkers(idx) -> None:
 
 
 def check(ctx, res) -> None:
+    _check_main(ctx, res)
+    _extent_rule(ctx, res)
+
+
+def _check_main(ctx, res) -> None:
     idx = ctx.idx
     v = vgc_mod.get(ctx)
     for q in SCOPE_VISITORS.values():
@@ -326,3 +331,46 @@ def load_positions_rule(ctx, res, rule: str) -> None:
                 f"{W.split('.')[-1]} binds every Name it meets and descends into {bad}: in `config.host, config.port = pair` (or a for/with target) the "
                 "object name `config` is recorded as assigned in the current scope, shadowing the real global/imported binding for the whole function")
     res.floor(rule, "ctx-blind name-binding visitors", n, 2)
+
+
+def _extent_rule(ctx, res) -> None:
+    """R15.8: a scope's extent is [get_start(), get_end()] in PHYSICAL lines (get_end is the end of the scope's last
+    logical line; logical_end is only the line on which that last statement begins).  Wherever the holding-scope search
+    tests `S.get_start() <= L` it must close the interval with `L <= S.get_end()` (or `.end`) of the same S and L."""
+    from ..cfg import CFG
+    from ..core import norm
+
+    idx = ctx.idx
+    n = 0
+    for f in sorted(idx.functions.values(), key=lambda f: f.qualname):
+        if f.unit.modname != "rope.base.pyscopes":
+            continue
+        cfg = None
+        for x in walk_local(f.node):
+            if not (isinstance(x, ast.Compare) and len(x.ops) == 1 and isinstance(x.ops[0], (ast.LtE, ast.Lt))):
+                continue
+            up = x.comparators[0]
+            recv = up.func.value if isinstance(up, ast.Call) and isinstance(up.func, ast.Attribute) else (up.value if isinstance(up, ast.Attribute) else None)
+            what = up.func.attr if isinstance(up, ast.Call) and isinstance(up.func, ast.Attribute) else (up.attr if isinstance(up, ast.Attribute) else None)
+            if recv is None or what is None or "end" not in what:
+                continue
+            cfg = cfg or CFG(f.node)
+            lower = False
+            for nd in cfg.node_containing(x):
+                for t, pol in cfg.guards(nd.id):
+                    if pol and isinstance(t, ast.Compare) and len(t.ops) == 1 and isinstance(t.ops[0], (ast.LtE, ast.Lt)) and norm(t.comparators[0]) == norm(x.left):
+                        lo = t.left
+                        lrecv = lo.func.value if isinstance(lo, ast.Call) and isinstance(lo.func, ast.Attribute) else (lo.value if isinstance(lo, ast.Attribute) else None)
+                        lwhat = lo.func.attr if isinstance(lo, ast.Call) and isinstance(lo.func, ast.Attribute) else (lo.attr if isinstance(lo, ast.Attribute) else None)
+                        if lrecv is not None and norm(lrecv) == norm(recv) and lwhat in ("get_start", "start"):
+                            lower = True
+            if not lower:
+                continue
+            n += 1
+            ok = what in ("get_end", "end")
+            res.add("R15.8", f"{f.qualname.split('.', 3)[-1]}|interval#{n}", ok, f"{f.unit.rel}:{x.lineno}",
+                    "the containment test closes the interval with the scope's physical end" if ok else
+                    f"{f.name} tests `{ast.unparse(x)}` after `get_start() <= line`: `{what}` is the line on which the scope's last statement BEGINS, so the "
+                    "continuation lines of a multi-line last statement are attributed to the enclosing scope (names looked up from there resolve in "
+                    "the wrong scope)", function=f.qualname)
+    res.floor("R15.8", "start/end containment tests in pyscopes", n, 1)
